@@ -12,8 +12,8 @@ import os
 
 import common
 
-GEN_DEPS = ("gen_idspace",)
-EXTRA_PROPS = ()
+GEN_DEPS = ("gen_idspace", "gen_pytrans")
+EXTRA_PROPS = ("C10tr",)
 ASSUMPTIONS = [
     "an ID space is one of the five feature sets of Spec/IdLayoutSpec.v; the subspace byte is byte 3 / byte 2 / byte 0 as stated there",
     "secrets.randbelow(n) returns some integer in [0, n) (the theorems quantify over all such values; the harness substitutes a recorder)",
